@@ -176,6 +176,7 @@ def run(P, R, tier):
     from . import c10 as C10
     C10.casekey_rule(P, _Renamed(R, "C10.casekey", "C03.casekey"))
     onecomp_rule(P, R)
+    mbcoef_rule(P, R)
     ssphase_rule(P, R)
     from . import c20 as C20
     C20.zerosites_rule(P, R, RULE="C03.zerosites")
@@ -551,3 +552,53 @@ def inertrelated_rule(P, R):
         rec(g["body"], None)
     if n < 5:
         R.anchor_missing(RULE, "only %d reads of phase_unknown->moles" % n)
+
+
+def mbcoef_rule(P, R):
+    """"exchangers and surfaces keep their site totals (sum of occupied equivalents = defined sites)": the site / element balance of a master
+    species sums every species with the number of that master it contains.  mb_for_species_aq / _ex / _surf walk the element list of the
+    species and register it in the balance of each master with store_mb_unknowns(master->unknown, &moles, COEF, ...): inside the loop
+    over the element list COEF must be elt_list[i].coef * master->coef - the stoichiometric coefficient of the species times the atoms
+    per master - as a polynomial identity.  Dropping elt_list[i].coef counts a bidentate surface species ((Hfo_wO)2Cd) as one site."""
+    from .. import ratfun as RF
+    RULE = "C03.mbcoef"
+    R.rule(RULE, "mb_for_species_*: inside the element-list loop a species enters the balance of a master with elt_list[i].coef * master->coef", minimum=4)
+    n = 0
+    for q in ("Phreeqc::mb_for_species_aq", "Phreeqc::mb_for_species_ex", "Phreeqc::mb_for_species_surf"):
+        f = P.one(q)
+        for lp in T.walk(f["body"]):
+            if lp[0] != "For" or not T.is_node(lp[3]) or "count_elts" not in T.text(lp[3], -40):
+                continue
+            iv = T.strip_casts(lp[3][3])[3] if T.is_node(T.strip_casts(lp[3][3])) and T.strip_casts(lp[3][3])[0] == "Ref" else None
+            for c in T.calls(lp[5]):
+                if T.callee_name(c) != "store_mb_unknowns" or len(c[4]) < 3:
+                    continue
+                tgt = "".join(T.text(c[4][0], -40).split())
+                if not tgt.endswith(".unknown"):
+                    continue
+                n += 1
+                base = tgt[:-len(".unknown")]
+                inst = "%s@%d" % (q.split("::")[-1], c[1] - f["line"])
+
+                def sym(x):
+                    return "".join(T.text(x, -40).split())
+                ctext = "".join(T.text(c[4][2], -40).split())
+                if ctext.endswith(".z") or ".dz[" in ctext:
+                    n -= 1      # charge of the species: the registration in the charge balance of a potential unknown, not a site / element balance
+                    continue
+                try:
+                    got = RF.from_tree(c[4][2], sym, opaque_calls=("operator[]",))
+                except RF.NotRational as e:
+                    R.anchor_missing(RULE, "%s: coefficient not rational (%s)" % (inst, e))
+                    continue
+                want = None
+                for s_ in got.symbols():
+                    if "elt_list" in s_ and s_.endswith(".coef"):
+                        want = RF.Rat.sym(s_) * RF.Rat.sym(base + ".coef")
+                if want is not None and got.same(want):
+                    R.ok(RULE, inst, "elt_list[%s].coef * %s.coef" % (iv, base))
+                else:
+                    R.violation(RULE, inst, "the species enters the balance of %s with the coefficient `%s`, not with elt_list[%s].coef * %s.coef: a species that holds the master "
+                                "more than once (a bidentate surface complex, CaX2) is counted once" % (base, T.text(c[4][2])[:50], iv, base), file=f["file"], line=c[1], function=q)
+    if n < 4:
+        R.anchor_missing(RULE, "only %d balance registrations found in the element-list loops" % n)
